@@ -133,6 +133,7 @@ async def scenario(loop, events, seed):
             f = ev.split(":", 1)
             k = f[0]
             was_connected = bool(p.is_connected)
+            was_supported = bool(p.supports_subscribe)
             before_active = active_ids(p, cb_ids)
             before_len = {lid: len(logs[lid]) for lid in logs}
             if k == "sub":
@@ -194,8 +195,8 @@ async def scenario(loop, events, seed):
                         problems.append((sig, f"listener {lid} ({kinds[lid]}) got {got} but the accessory sent {exp}"))
                 if not p.is_connected:
                     problems.append(("connection-broken-by-event", f"the connection was torn down while delivering {f[1]}"))
-            if k not in ("sub", "unsub", "cutsub"):
-                pass
+            if was_supported and not p.supports_subscribe and not (k == "cutsub" and was_connected):
+                problems.append(("fallback-without-cut", f"after {ev}: the pairing fell back to polling (supports_subscribe=False) although no subscription request was cut off by a disconnection; nothing will be re-subscribed after the next reconnect"))
             if net.errors:
                 problems.append(("callback-raised", f"after {ev}: {net.errors[0]}"))
                 del net.errors[:]
